@@ -35,6 +35,8 @@ Ltac not_loop x :=
   | context [AttributeDef_parseFrom_loop1] => fail
   | context [AttributeDefaultValueDef_parseFrom_range1] => fail
   | context [AttributeValueForObjectDef_parseFrom_range1] => fail
+  | context [ValueDescriptionDef_parseFrom] => fail
+  | context [SignalDef_parseFrom] => fail
   | context [ident_list_loop] => fail
   | context [new_symbols_loop] => fail
   | context [value_descriptions_loop] => fail
@@ -125,7 +127,7 @@ Section Equiv.
   Ltac use_ih IH H :=
     match goal with
     | |- _ = match _ ?r ?s with _ => _ end =>
-      rewrite IH with (racc := r); [norm; pt_records; fsteps | pt_records; simpl; rewrite H; reflexivity]
+      rewrite IH with (racc := r); [norm; pt_records; fsteps | pt_records; simpl; rewrite ?map_app, H; reflexivity]
     end.
   Ltac loop_proof d IH H :=
     norm; pt_records; steps;
@@ -225,6 +227,152 @@ Section Equiv.
   Proof.
     intros. unfold run_as, bind. rewrite <- SignalDef_parseFrom_core_eq. unfold bind.
     destruct (SignalDef_parseFrom ilh idh F SignalDef_zero st); reflexivity.
+  Qed.
+
+  (** ---------------------------------------------------------------- value descriptions (nested parseFrom)
+      [VD_of] is the inverse of ParserGlue.ValueDescriptionDef_to (proof-side only) *)
+  Definition VD_of (v : value_description_def) : ValueDescriptionDef :=
+    {| ValueDescriptionDef_Pos := vd_pos v; ValueDescriptionDef_Value := vd_value v;
+       ValueDescriptionDef_Description := vd_description v |}.
+  Lemma VD_map_to_of : forall l, map ValueDescriptionDef_to (map VD_of l) = l.
+  Proof. induction l as [|v l IH]; simpl; [reflexivity|]. rewrite IH. destruct v; reflexivity. Qed.
+
+  Lemma ValueDescriptionDef_parseFrom_core_eq : forall st,
+    ValueDescriptionDef_parseFrom ilh idh F ValueDescriptionDef_zero st
+    = bind (parse_value_description ilh idh F) (fun v => ret (VD_of v)) st.
+  Proof. intros. unfold ValueDescriptionDef_parseFrom, parse_value_description, VD_of. norm. pt_records. fsteps. Qed.
+
+  Ltac nested_vd :=
+    rewrite ValueDescriptionDef_parseFrom_core_eq; norm;
+    match goal with H : parse_value_description _ _ _ ?s = _ |- context [parse_value_description _ _ _ ?s] => rewrite H end;
+    cbv beta iota zeta; pt_records.
+
+  Lemma ValueTableDef_loop_eq : forall f d racc st, ValueTableDef_ValueDescriptions d = map VD_of (rev racc) ->
+    ValueTableDef_parseFrom_loop1 ilh idh F f d st
+    = bind (value_descriptions_loop ilh idh F f racc)
+           (fun l => ret (ValueTableDef_set_ValueDescriptions d (map VD_of l))) st.
+  Proof.
+    induction f; intros d racc st H; [reflexivity|].
+    cbn [ValueTableDef_parseFrom_loop1 value_descriptions_loop]. norm. pt_records. steps.
+    all: try (destruct d; simpl in *; subst; reflexivity).
+    all: nested_vd; try reflexivity; use_ih IHf H.
+  Qed.
+
+  Lemma TP_ValueTableDef_parseFrom_eq : forall st,
+    run_as ValueTableDef_to_def (ValueTableDef_parseFrom ilh idh F ValueTableDef_zero) st = parse_value_table ilh idh F st.
+  Proof.
+    intros. unfold ValueTableDef_parseFrom, parse_value_table. norm. pt_records. steps.
+    all: rewrite ValueTableDef_loop_eq with (racc := []) by reflexivity; norm; pt_records; fsteps.
+    all: unfold ValueTableDef_to_def; pt_records; rewrite VD_map_to_of; reflexivity.
+  Qed.
+
+  Lemma ValueDescriptionsDef_loop_eq : forall f d racc st, ValueDescriptionsDef_ValueDescriptions d = map VD_of (rev racc) ->
+    ValueDescriptionsDef_parseFrom_loop1 ilh idh F f d st
+    = bind (value_descriptions_loop ilh idh F f racc)
+           (fun l => ret (ValueDescriptionsDef_set_ValueDescriptions d (map VD_of l))) st.
+  Proof.
+    induction f; intros d racc st H; [reflexivity|].
+    cbn [ValueDescriptionsDef_parseFrom_loop1 value_descriptions_loop]. norm. pt_records. steps.
+    all: try (destruct d; simpl in *; subst; reflexivity).
+    all: nested_vd; try reflexivity; use_ih IHf H.
+  Qed.
+
+  Lemma TP_ValueDescriptionsDef_parseFrom_eq : forall st,
+    run_as ValueDescriptionsDef_to_def (ValueDescriptionsDef_parseFrom ilh idh F ValueDescriptionsDef_zero) st
+    = parse_value_descriptions ilh idh F st.
+  Proof.
+    intros. unfold ValueDescriptionsDef_parseFrom, parse_value_descriptions. norm. pt_records. steps.
+    all: rewrite ValueDescriptionsDef_loop_eq with (racc := []) by reflexivity; norm; pt_records; fsteps.
+    all: unfold ValueDescriptionsDef_to_def; pt_records; rewrite VD_map_to_of; reflexivity.
+  Qed.
+
+  (** ---------------------------------------------------------------- BO_ (nested SignalDef.parseFrom) *)
+  Definition SD_of (s : signal_def) : SignalDef :=
+    {| SignalDef_Pos := sg_pos s; SignalDef_Name := sg_name s; SignalDef_StartBit := sg_start s; SignalDef_Size := sg_size s;
+       SignalDef_IsBigEndian := sg_big_endian s; SignalDef_IsSigned := sg_signed s;
+       SignalDef_IsMultiplexerSwitch := sg_mux_switch s; SignalDef_IsMultiplexed := sg_multiplexed s;
+       SignalDef_MultiplexerSwitch := sg_mux_value s; SignalDef_Offset := sg_offset s; SignalDef_Factor := sg_factor s;
+       SignalDef_Minimum := sg_min s; SignalDef_Maximum := sg_max s; SignalDef_Unit := sg_unit s;
+       SignalDef_Receivers := sg_receivers s |}.
+  Lemma SD_map_to_of : forall l, map SignalDef_to (map SD_of l) = l.
+  Proof. induction l as [|v l IH]; simpl; [reflexivity|]. rewrite IH. destruct v; reflexivity. Qed.
+
+  Lemma SignalDef_parseFrom_of_eq : forall st,
+    SignalDef_parseFrom ilh idh F SignalDef_zero st = bind (parse_signal ilh idh F) (fun s => ret (SD_of s)) st.
+  Proof.
+    intros. unfold bind. rewrite <- SignalDef_parseFrom_core_eq. unfold bind, ret.
+    destruct (SignalDef_parseFrom ilh idh F SignalDef_zero st); try reflexivity. f_equal. destruct a; reflexivity.
+  Qed.
+
+  Ltac nested_sd :=
+    rewrite SignalDef_parseFrom_of_eq; norm;
+    match goal with H : parse_signal _ _ _ ?s = _ |- context [parse_signal _ _ _ ?s] => rewrite H end;
+    cbv beta iota zeta; pt_records.
+
+  Lemma MessageDef_loop_eq : forall f d racc st, MessageDef_Signals d = map SD_of (rev racc) ->
+    MessageDef_parseFrom_loop1 ilh idh F f d st
+    = bind (signals_loop ilh idh F f racc) (fun l => ret (MessageDef_set_Signals d (map SD_of l))) st.
+  Proof.
+    induction f; intros d racc st H; [reflexivity|].
+    cbn [MessageDef_parseFrom_loop1 signals_loop]. norm. pt_records. steps.
+    all: try (destruct d; simpl in *; subst; reflexivity).
+    all: nested_sd; try reflexivity; use_ih IHf H.
+  Qed.
+
+  Lemma TP_MessageDef_parseFrom_eq : forall st,
+    run_as MessageDef_to_def (MessageDef_parseFrom ilh idh F MessageDef_zero) st = parse_message ilh idh F st.
+  Proof.
+    intros. unfold MessageDef_parseFrom, parse_message, parse_message_with. norm. pt_records. steps.
+    all: rewrite MessageDef_loop_eq with (racc := []) by reflexivity; norm; pt_records; fsteps.
+    all: unfold MessageDef_to_def; pt_records; rewrite SD_map_to_of; reflexivity.
+  Qed.
+
+  (** ---------------------------------------------------------------- BA_DEF_DEF_ / BA_: `for _, prevDef := range p.defs` with type assertion and break
+      = Parser.find_attribute (the first earlier AttributeDef with this name); p.defs = the definitions parsed so far *)
+  Lemma AttributeDefaultValueDef_range_eq : forall l d st,
+    AttributeDefaultValueDef_DefaultIntValue d = 0 -> AttributeDefaultValueDef_DefaultFloatValue d = 0 -> AttributeDefaultValueDef_DefaultStringValue d = [] ->
+    AttributeDefaultValueDef_parseFrom_range1 ilh idh F l d st
+    = bind (attribute_value ilh idh F l (AttributeDefaultValueDef_AttributeName d))
+        (fun v => let '(i, f, s) := v in
+                  ret (AttributeDefaultValueDef_set_DefaultStringValue (AttributeDefaultValueDef_set_DefaultFloatValue (AttributeDefaultValueDef_set_DefaultIntValue d i) f) s)) st.
+  Proof.
+    induction l as [|x l IH]; intros d st Hi Hf Hs.
+    - destruct d; simpl in *; subst; reflexivity.
+    - cbn [AttributeDefaultValueDef_parseFrom_range1]. unfold attribute_value. cbn [find_attribute].
+      destruct x; cbn [as_AttributeDef]; try (apply IH; assumption).
+      unfold AttributeDef_of; pt_records.
+      destruct (bytes_eqb (ad_name a) (AttributeDefaultValueDef_AttributeName d)) eqn:E; [|apply IH; assumption].
+      norm. pt_records. fsteps. all: destruct d; simpl in *; subst; reflexivity.
+  Qed.
+
+  Lemma TP_AttributeDefaultValueDef_parseFrom_eq : forall defs st,
+    run_as AttributeDefaultValueDef_to_def (AttributeDefaultValueDef_parseFrom ilh idh F defs AttributeDefaultValueDef_zero) st = parse_attribute_default ilh idh F defs st.
+  Proof.
+    intros. unfold AttributeDefaultValueDef_parseFrom, parse_attribute_default, object_ref. norm. pt_records. steps.
+    all: rewrite AttributeDefaultValueDef_range_eq by reflexivity; norm; pt_records; fsteps.
+  Qed.
+
+  Lemma AttributeValueForObjectDef_range_eq : forall l d st,
+    AttributeValueForObjectDef_IntValue d = 0 -> AttributeValueForObjectDef_FloatValue d = 0 -> AttributeValueForObjectDef_StringValue d = [] ->
+    AttributeValueForObjectDef_parseFrom_range1 ilh idh F l d st
+    = bind (attribute_value ilh idh F l (AttributeValueForObjectDef_AttributeName d))
+        (fun v => let '(i, f, s) := v in
+                  ret (AttributeValueForObjectDef_set_StringValue (AttributeValueForObjectDef_set_FloatValue (AttributeValueForObjectDef_set_IntValue d i) f) s)) st.
+  Proof.
+    induction l as [|x l IH]; intros d st Hi Hf Hs.
+    - destruct d; simpl in *; subst; reflexivity.
+    - cbn [AttributeValueForObjectDef_parseFrom_range1]. unfold attribute_value. cbn [find_attribute].
+      destruct x; cbn [as_AttributeDef]; try (apply IH; assumption).
+      unfold AttributeDef_of; pt_records.
+      destruct (bytes_eqb (ad_name a) (AttributeValueForObjectDef_AttributeName d)) eqn:E; [|apply IH; assumption].
+      norm. pt_records. fsteps. all: destruct d; simpl in *; subst; reflexivity.
+  Qed.
+
+  Lemma TP_AttributeValueForObjectDef_parseFrom_eq : forall defs st,
+    run_as AttributeValueForObjectDef_to_def (AttributeValueForObjectDef_parseFrom ilh idh F defs AttributeValueForObjectDef_zero) st = parse_attribute_value ilh idh F defs st.
+  Proof.
+    intros. unfold AttributeValueForObjectDef_parseFrom, parse_attribute_value, object_ref. norm. pt_records. steps.
+    all: rewrite AttributeValueForObjectDef_range_eq by reflexivity; norm; pt_records; fsteps.
   Qed.
 
 End Equiv.
